@@ -72,3 +72,50 @@ theorem C09_exiting (tag d : Nat) (c : SS.Fill.Ctx) :
 example : elaborate ([Op.enterContext 1, .callback 2, .pushAsyncExitFunction 3, .pushBoundMethod 4 9].map register) =
     [⟨.manager 1, false, .enterContext, false, 0⟩, ⟨.callable (.exitWrapper 2), false, .callback, false, 1⟩,
      ⟨.callable (.plain 3), true, .pushAsyncExit, false, 2⟩, ⟨.manager 4, false, .push, false, 3⟩] := by decide
+
+/-! ### the stack over time -/
+
+theorem runEvs_eq_from (evs : List Ev) (s : St) (l : List Op × List Op)
+    (h1 : s.cur = l.1.map register) (h2 : s.moved = l.2.map register) :
+    (evs.foldl stepEv s).cur = ((evs.foldl liveStep l).1).map register
+    ∧ (evs.foldl stepEv s).moved = ((evs.foldl liveStep l).2).map register := by
+  induction evs generalizing s l with
+  | nil => exact ⟨h1, h2⟩
+  | cons e evs ih =>
+    simp only [List.foldl_cons]
+    apply ih
+    · cases e <;> simp [stepEv, liveStep, h1, List.map_dropLast]
+    · cases e <;> simp [stepEv, liveStep, h1, h2]
+
+/-- **C09_history**: after ANY history of registrations, `pop_all()` calls and unwinding pops — of any length,
+in any order — the children shown for the stack are exactly the still-pending registrations, in registration
+order, numbered from 0; and the children shown for the stack that `pop_all()` returned are exactly the
+registrations that were pending when it was called. -/
+theorem C09_history (evs : List Ev) :
+    elaborate (runEvs evs).cur = ((liveOps evs).1.zipIdx).map (fun p => specOf p.2 p.1)
+    ∧ elaborate (runEvs evs).moved = ((liveOps evs).2.zipIdx).map (fun p => specOf p.2 p.1) := by
+  have h := runEvs_eq_from evs St.init ([], []) rfl rfl
+  unfold runEvs liveOps
+  rw [h.1, h.2]
+  exact ⟨C09_children _, C09_children _⟩
+
+/-- **C09_stable_under_registration**: registering one more callback leaves every child already shown
+unchanged (same object, kind, method and `[index]`) and adds exactly one child, last. -/
+theorem C09_stable_under_registration (es : List Entry) (e : Entry) :
+    elaborate (es ++ [e]) = elaborate es ++ [classify es.length e] := by
+  simp [elaborate, List.zipIdx_append]
+
+/-- **C09_stable_under_unwinding**: while the stack exits, popping the last callback removes exactly the last
+child; the still-pending ones keep their identity and their `[index]`. -/
+theorem C09_stable_under_unwinding (es : List Entry) :
+    elaborate es.dropLast = (elaborate es).dropLast := by
+  rcases List.eq_nil_or_concat es with h | ⟨l, e, h⟩
+  · subst h; rfl
+  · subst h; simp only [List.concat_eq_append]; rw [C09_stable_under_registration]; simp
+
+/-- `pop_all()` empties the stack's own list of children and moves the list, unchanged, to the new stack. -/
+theorem C09_pop_all (s : St) :
+    elaborate (stepEv s .popAll).cur = [] ∧ elaborate (stepEv s .popAll).moved = elaborate s.cur := ⟨rfl, rfl⟩
+
+example : (liveOps [.reg (.enterContext 1), .reg (.callback 2), .popAll, .reg (.pushFunction 3), .reg (.enterContext 4), .popOne])
+    = ([.pushFunction 3], [.enterContext 1, .callback 2]) := by decide
